@@ -10,7 +10,13 @@
    (Crypto/AesCtrArith.v: literal types, integer promotions, usual arithmetic conversions, wrap at
    the width of the C type).  What stays hand-written is the control skeleton (which helper calls
    which; checked against the C text by the translator, EUnknown / SUnknown -> Fault otherwise),
-   the byte loop of cipherblock_use and the __m128i statements of the AES-NI loop body.
+   the byte loop of cipherblock_use and the __m128i statements of the AES-NI loop body (the
+   translator accepts those two only in their one known spelling, up to the names of locals).
+   Also read and given their meaning: assert(e) among the scalar statements (AssertFail when it
+   does not hold), leading `if (c) return;` statements of the two stream functions, and the
+   counter write-back of the AES-NI function as memcpy(pblk + off, arr, len) or
+   be64enc(pblk + off, e).  A form the translator cannot read makes it refuse the whole module
+   (pinned data, correspondence run decides); it does not emit a guess.
    *inbuf / *outbuf are tracked as offsets; the buffers being lists, an advance other than the
    number of bytes just processed has no form here: Fault.
 
